@@ -13,6 +13,13 @@ and writes them as data into lean/BctVerif/Gen/Kernels.lean together with one ob
 (`theorem kernel_<routine>_ok : kernelOk kernel_<routine> = true := by decide`) and the instantiated link theorem
 (`kernel_<routine>_computes`: the extracted statements compute exactly Rewire.swapDir / swapUnd / …).
 
+Tolerated, because they cannot change what a routine computes (normalised away before anything is matched, see
+`canonicalise`): a consistent renaming of function-local variables (the locals in first-binding order are renamed back
+to the pinned list `CANON_LOCALS` — only when the count is the same and no canonical name is otherwise in use; never
+parameters, imports, globals, builtins), `if not c: X else: Y` for `if c: Y else: X`, `pass`, docstrings and other
+bare-string statements.  The result is alpha-equivalent to the source that was read, so every real slip (D2, an index,
+a guard cell) is still there after it.
+
 Conservative by construction: every statement of the accepted-swap block, every write to the rewired matrix or to the
 edge arrays inside the rewiring loop and every rebinding of a/b/c/d must be *recognised*; anything else marks the routine
 `recognised := false`, which makes its obligation unprovable (the build fails naming `kernel_<routine>_ok`) and is
@@ -104,6 +111,101 @@ def base_name(t):
     while isinstance(t, ast.Subscript):
         t = t.value
     return t.id if isinstance(t, ast.Name) else None
+
+
+# ------------------------------------------------------------------ harmless-edit normalisation
+
+# renameable locals of each routine in first-binding order at the reference revision (`python translate/kernels.py --canon`)
+CANON_LOCALS = {
+    'randmio_dir': ['rng', 'n', 'i', 'j', 'k', 'max_attempts', 'eff', 'it', 'att', 'e1', 'e2', 'a', 'b', 'c', 'd'],
+    'randmio_dir_connected': ['rng', 'n', 'i', 'j', 'k', 'max_attempts', 'eff', 'it', 'att', 'rewire', 'e1', 'e2', 'a', 'b', 'c', 'd', 'P',
+        'PN'],
+    'latmio_dir': ['rng', 'n', 'ind_rp', 'un', 'um', 'u', 'v', 'i', 'j', 'k', 'max_attempts', 'eff', 'it', 'att', 'e1', 'e2', 'a', 'b',
+        'c', 'd', 'ind_rp_reverse', 'Rlatt'],
+    'latmio_dir_connected': ['rng', 'n', 'ind_rp', 'un', 'um', 'u', 'v', 'i', 'j', 'k', 'max_attempts', 'eff', 'it', 'att', 'rewire', 'e1',
+        'e2', 'a', 'b', 'c', 'd', 'P', 'PN', 'ind_rp_reverse', 'Rlatt'],
+    'randmio_und': ['rng', 'n', 'i', 'j', 'k', 'max_attempts', 'eff', 'it', 'att', 'e1', 'e2', 'a', 'b', 'c', 'd'],
+    'randmio_und_connected': ['rng', 'n', 'i', 'j', 'k', 'max_attempts', 'eff', 'it', 'att', 'rewire', 'e1', 'e2', 'a', 'b', 'c', 'd', 'P',
+        'PN'],
+    'latmio_und': ['rng', 'n', 'ind_rp', 'un', 'um', 'u', 'v', 'i', 'j', 'k', 'max_attempts', 'eff', 'it', 'att', 'e1', 'e2', 'a', 'b',
+        'c', 'd', 'ind_rp_reverse', 'Rlatt'],
+    'latmio_und_connected': ['rng', 'n', 'ind_rp', 'un', 'um', 'u', 'v', 'i', 'j', 'k', 'max_attempts', 'eff', 'it', 'att', 'rewire', 'e1',
+        'e2', 'a', 'b', 'c', 'd', 'P', 'PN', 'ind_rp_reverse', 'Rlatt'],
+    'randomize_graph_partial_und': ['rng', 'i', 'j', 'm', 'nswap', 'e1', 'e2', 'a', 'b', 'c', 'd'],
+    'randmio_dir_signed': ['rng', 'n', 'max_attempts', 'eff', 'it', 'att', 'a', 'b', 'c', 'd', 'r0_ab', 'r0_cd', 'r0_ad', 'r0_cb'],
+    'randmio_und_signed': ['rng', 'n', 'max_attempts', 'eff', 'it', 'att', 'a', 'b', 'c', 'd', 'r0_ab', 'r0_cd', 'r0_ad', 'r0_cb'],
+    'randomizer_bin_und': ['rng', 'ax', 'nr_poss_edges', 'savediag', 'i', 'j', 'k', 'swap', 'fullnodes', 'it', 'a', 'b', 'alliholes',
+        'alljholes', 'i_intersect', 'ii', 'jj', 'nummates', 'mate', 'c', 'd', 'm'],
+}
+
+
+def _cores():
+    """the scope analysis of translate/cores.py (`_pin_renameable`, `_drop_noops`, `_rename_locals`, `_names_used`);
+    None if unavailable — then nothing is renamed (a renamed source fails its obligation: the conservative direction)"""
+    try:
+        here = os.path.dirname(os.path.abspath(__file__))
+        if here not in sys.path:
+            sys.path.insert(0, here)
+        import cores
+        for nm in ('_pin_renameable', '_drop_noops', '_rename_locals', '_names_used'):
+            getattr(cores, nm)
+        return cores
+    except Exception:  # noqa
+        return None
+
+
+def norm_ifs(fn):
+    """`if not c: X else: Y`  ->  `if c: Y else: X` (in place; only when there is an else branch)"""
+    for nd in ast.walk(fn):
+        if isinstance(nd, ast.If):
+            while nd.orelse and isinstance(nd.test, ast.UnaryOp) and isinstance(nd.test.op, ast.Not):
+                nd.test = nd.test.operand
+                nd.body, nd.orelse = nd.orelse, nd.body
+
+
+def renameable_locals(fn2, cores):
+    """renameable locals of the normalised function in the order of their first binding *in the normalised text*
+    (the tree is printed and re-read so that positions follow the normalised statement order)"""
+    return cores._pin_renameable(ast.parse(ast.unparse(fn2)).body[0])
+
+
+def canonicalise(fn, name, canon_table=None):
+    """-> a deep copy of `fn` without `pass` / bare strings, with negated two-branch ifs turned round and with a
+    consistent local renaming undone.  Line numbers are kept.  Alpha-equivalent to `fn` by construction: the renaming is
+    a bijection between names that `_pin_renameable` proves local (bound in the routine, every occurrence resolving
+    there, not a parameter / import / global), applied only when no target name is otherwise used in the routine."""
+    import copy
+    canon_table = CANON_LOCALS if canon_table is None else canon_table
+    cores = _cores()
+    fn2 = copy.deepcopy(fn)
+    if cores is None:
+        return fn2
+    fn2.body = cores._drop_noops(fn2.body)
+    norm_ifs(fn2)
+    try:
+        cur = renameable_locals(fn2, cores)
+    except Exception:  # noqa
+        return fn2
+    canon = canon_table.get(name)
+    if canon is None or cur is None or len(cur) != len(canon) or cur == canon:
+        return fn2
+    if set(canon) & (cores._names_used(fn2) - set(cur)):
+        return fn2
+    cores._rename_locals(fn2, dict(zip(cur, canon)))
+    return fn2
+
+
+def canon_locals_text(src_path=None):
+    """the table CANON_LOCALS for the current source (run on the reference revision of /repo)"""
+    src_path = src_path or os.path.join(common.REPO, 'bct', 'algorithms', 'reference.py')
+    tree = ast.parse(open(src_path).read())
+    fns = {f.name: f for f in tree.body if isinstance(f, ast.FunctionDef)}
+    cores = _cores()
+    out = []
+    for name in KINDS:
+        fn2 = canonicalise(fns[name], name, {})
+        out.append('    %r: %r,' % (name, renameable_locals(fn2, cores)))
+    return '\n'.join(out)
 
 
 # ------------------------------------------------------------------ one routine
@@ -429,7 +531,7 @@ def extract_all(src_path=None):
             k = K(name); k.problems.append('%s: %s' % (name, err or 'function not found in ' + src_path))
         else:
             try:
-                k = extract(fns[name], name)
+                k = extract(canonicalise(fns[name], name), name)
             except Exception as e:  # noqa — an extractor crash must not look like success
                 k = K(name); k.problems.append('%s: extractor raised %s: %s' % (name, type(e).__name__, e))
         ks.append(k)
@@ -458,7 +560,9 @@ def generate(lean_dir=None):
 
 if __name__ == '__main__':
     import json
-    if len(sys.argv) > 1 and sys.argv[1] == '--print':
+    if len(sys.argv) > 1 and sys.argv[1] == '--canon':
+        print(canon_locals_text())
+    elif len(sys.argv) > 1 and sys.argv[1] == '--print':
         ks, sp = extract_all()
         sys.stdout.write(lean_file(ks, sp))
     else:
